@@ -152,46 +152,139 @@ Proof. exact decode_payload_unknown_field_skipped. Qed.
 Print Assumptions C01_payload_unknown_field_skipped.
 
 (* ---- the TLS caller (QUIC): crypto/tls/certificate.rs::parse + verifier.rs, after the X.509 layer
-   (x509-parser, certificate validity and self-signature checked with ring: trusted) ---- *)
-(* the only way to be accepted: exactly one well-formed libp2p extension whose key blob is admitted
-   (same admission as above), whose signature verifies over P2P_SIGNING_PREFIX ++ the
-   certificate's SubjectPublicKeyInfo, the id being derived from that key and equal to the dialed
-   peer when there is one (verify_server_cert; verify_client_cert has none) *)
+   (x509-parser, certificate validity and self-signature checked with ring: trusted).  The model
+   walks the certificate's extensions in order, as parse_unverified does ---- *)
+(* the only way to be accepted: among extensions that are skipped (another OID, not critical)
+   exactly one extension with the libp2p OID, well formed, whose key blob is admitted (same
+   admission as above), whose signature verifies over P2P_SIGNING_PREFIX ++ the certificate's
+   SubjectPublicKeyInfo, the id being derived from that key and equal to the dialed peer when there
+   is one (verify_server_cert; verify_client_cert has none) *)
 Theorem C01_tls_accept_sound :
-  forall on_curve verify x spki expected p,
-    tls_accept on_curve verify x spki expected = Accept p ->
-    exists kb sg k,
-      x = TlsExt kb sg /\ decode_pubkey on_curve kb = KeyOk k /\
+  forall on_curve verify l spki expected p,
+    tls_accept on_curve verify l spki expected = Accept p ->
+    exists l1 kb sg l2 k,
+      l = l1 ++ XP2p (Some (kb, sg)) :: l2 /\ Forall ignorable l1 /\ Forall ignorable l2 /\
+      decode_pubkey on_curve kb = KeyOk k /\
       verify k (TLS_PREFIX ++ spki) sg = true /\
       p = peer_id_of_key k /\ (expected = None \/ expected = Some p).
 Proof. exact tls_accept_sound. Qed.
 Print Assumptions C01_tls_accept_sound.
 
 Theorem C01_tls_accept_complete :
-  forall on_curve verify kb sg k spki expected,
+  forall on_curve verify l1 kb sg l2 k spki expected,
+    Forall ignorable l1 -> Forall ignorable l2 ->
     decode_pubkey on_curve kb = KeyOk k -> verify k (TLS_PREFIX ++ spki) sg = true ->
     (expected = None \/ expected = Some (peer_id_of_key k)) ->
-    tls_accept on_curve verify (TlsExt kb sg) spki expected = Accept (peer_id_of_key k).
+    tls_accept on_curve verify (l1 ++ XP2p (Some (kb, sg)) :: l2) spki expected = Accept (peer_id_of_key k).
 Proof. exact tls_accept_complete. Qed.
 Print Assumptions C01_tls_accept_complete.
 
 Theorem C01_tls_dialed_mismatch :
-  forall on_curve verify x spki p q,
-    tls_verify on_curve verify x spki = Accept p -> q <> p ->
-    tls_accept on_curve verify x spki (Some q) = Reject EMismatch.
+  forall on_curve verify l spki p q,
+    tls_verify on_curve verify l spki = Accept p -> q <> p ->
+    tls_accept on_curve verify l spki (Some q) = Reject EMismatch.
 Proof. exact tls_reject_mismatch. Qed.
 Print Assumptions C01_tls_dialed_mismatch.
+
+(* a critical extension the verifier does not understand, anywhere in the certificate, and a second
+   extension with the libp2p OID, whatever the two hold: never accepted *)
+Theorem C01_tls_critical_or_duplicate_refused :
+  forall on_curve verify spki expected p,
+    (forall l, In (XOther true) l -> tls_accept on_curve verify l spki expected <> Accept p) /\
+    (forall la c1 lb c2 lc,
+       tls_accept on_curve verify (la ++ XP2p c1 :: lb ++ XP2p c2 :: lc) spki expected <> Accept p).
+Proof.
+  intros oc vf spki e p. split.
+  - intros l. exact (tls_critical_refused oc vf l spki e p).
+  - intros la c1 lb c2 lc. exact (tls_duplicate_refused oc vf la c1 lb c2 lc spki e p).
+Qed.
+Print Assumptions C01_tls_critical_or_duplicate_refused.
 
 (* under the single-message hypothesis: an extension made for one certificate key is refused in a
    certificate with another key *)
 Theorem C01_tls_binding :
   forall (on_curve : bytes -> bool) (verify : bytes -> bytes -> bytes -> bool),
     (forall pk m m' sg, verify pk m sg = true -> verify pk m' sg = true -> m = m') ->
-    forall x spki spki' e' p',
-      tls_accept on_curve verify x spki' e' = Accept p' -> spki <> spki' ->
-      forall e, tls_accept on_curve verify x spki e = Reject ETlsIssuer.
+    forall l spki spki' e' p',
+      tls_accept on_curve verify l spki' e' = Accept p' -> spki <> spki' ->
+      forall e, tls_accept on_curve verify l spki e = Reject ETlsIssuer.
 Proof. exact tls_binding. Qed.
 Print Assumptions C01_tls_binding.
+
+(* ---- every caller of the identity check, and the transport manager behind them ---- *)
+(* `dial_outcome t addr_peer dialed ev`: a connection dialed through the manager on transport t,
+   `addr_peer` the /p2p part of the address handed to the transport (TCP: optional; WebSocket and
+   QUIC refuse an address without it; WebRTC cannot dial), `dialed` the peer the manager recorded in
+   pending_connections, `ev` what the remote presented (Noise payload + static key, or certificate
+   extensions + SPKI).  On EVERY transport an accepted connection is to the dialed peer and rests on
+   authentic evidence: the transport compares, and where it does not (TCP, address without /p2p)
+   TransportManager::on_connection_established does *)
+Theorem C01_every_dial_checked :
+  forall on_curve verify t addr_peer dialed ev p,
+    dial_outcome on_curve verify t addr_peer dialed ev = Some (Accept p) ->
+    p = dialed /\ authentic on_curve verify ev p.
+Proof. exact every_dial_checked. Qed.
+Print Assumptions C01_every_dial_checked.
+
+(* when the address names the dialed peer (the manager dials only such addresses) the transport's
+   own comparison decides and the manager's changes nothing; without /p2p on TCP the transport
+   accepts whoever authenticates and the manager refuses the connection *)
+Theorem C01_transport_and_manager_checks :
+  forall on_curve verify,
+    (forall t dialed ev, t <> TWebRtc ->
+       dial_outcome on_curve verify t (Some dialed) dialed ev =
+       transport_verdict on_curve verify t (Some dialed) ev) /\
+    (forall pb rs p dialed,
+       verify_identity on_curve verify pb rs = Accept p -> dialed <> p ->
+       transport_verdict on_curve verify TTcp None (EvNoise pb rs) = Some (Accept p) /\
+       dial_outcome on_curve verify TTcp None dialed (EvNoise pb rs) = Some (Reject EMismatch)) /\
+    (forall t addr_peer dialed ev r,
+       dial_outcome on_curve verify t addr_peer dialed ev = Some r ->
+       t = TTcp \/ (addr_peer <> None /\ (t = TWebSocket \/ t = TQuic))).
+Proof.
+  intros oc vf. split; [|split].
+  - exact (transport_check_suffices oc vf).
+  - exact (tcp_without_p2p_caught_by_manager oc vf).
+  - exact (no_dial_without_expectation oc vf).
+Qed.
+Print Assumptions C01_transport_and_manager_checks.
+
+(* inbound connections (all four transports; WebRTC only has these): whoever is reported presented
+   authentic evidence *)
+Theorem C01_inbound_authentic :
+  forall on_curve verify t ev p,
+    inbound_outcome on_curve verify t ev = Some (Accept p) -> authentic on_curve verify ev p.
+Proof. exact inbound_authentic. Qed.
+Print Assumptions C01_inbound_authentic.
+
+(* ---- framing of the handshake messages: what first_message / second_message write is read back
+   exactly by read_handshake_message and nothing behind it is touched (no read-ahead); the
+   listener's handshake consumes exactly its two frames, early data stays on the stream ---- *)
+Theorem C01_handshake_framing :
+  (forall b rest, len b < 65536 -> read_frame (frame b ++ rest) = Some (b, rest)) /\
+  (forall s b r, bytes_ok s = true -> read_frame s = Some (b, r) -> s = frame b ++ r /\ len b < 65536) /\
+  (forall s m1 m3 rest, bytes_ok s = true -> listener_reads s = Some (m1, m3, rest) ->
+     s = frame m1 ++ frame m3 ++ rest) /\
+  (forall m1 m3 rest, len m1 < 65536 -> len m3 < 65536 ->
+     listener_reads (frame m1 ++ frame m3 ++ rest) = Some (m1, m3, rest)).
+Proof.
+  split; [exact read_frame_frame|]. split; [exact read_frame_exact|].
+  split; [exact listener_reads_exact|exact listener_reads_frames].
+Qed.
+Print Assumptions C01_handshake_framing.
+
+(* the identity payload of an honest node has 104 bytes whatever the keys: messages of 32, 200 and
+   168 bytes, inside the write buffers (256 / 2048) and the u16 length prefix *)
+Theorem C01_honest_message_sizes :
+  forall sign idk static,
+    length idk = 32%nat -> length (sign idk (DOMAIN ++ static)) = 64%nat ->
+    length (honest_payload sign idk static) = 104%nat /\
+    msg1_len = 32 /\ msg2_len 104 = 200 /\ msg3_len 104 = 168.
+Proof.
+  intros sign idk static Lk Ls. split; [exact (honest_payload_length sign idk static Lk Ls)|].
+  repeat split; reflexivity.
+Qed.
+Print Assumptions C01_honest_message_sizes.
 
 (* ---- binding to the static key of this very session ---- *)
 (* under the single-message hypothesis on `verify` (the unforgeability idealisation, listed in
